@@ -54,13 +54,21 @@ def usefulIter (g : Grammar) (inp : Input) (ch : List Fact) : Nat → List Fact 
       let kids := (altsOf g inp ch f).flatMap (childFacts g)
       usefulIter g inp ch fuel (f :: done) (kids ++ todo)
 
+/-- The top-down closure is complete: it holds the roots and the children of every
+alternative of every fact it holds (false only if `usefulIter` ran out of fuel). -/
+def usefulClosed (g : Grammar) (inp : Input) (ch : List Fact) (useful roots : List Fact) : Bool :=
+  roots.all (fun r => useful.contains r) &&
+  useful.all (fun f => ((altsOf g inp ch f).flatMap (childFacts g)).all (fun k => useful.contains k))
+
 /-- The packed alternatives of the complete SPPF of the whole input (`consume`)
 or of all its sentence prefixes. -/
 def sppfAlts (g : Grammar) (inp : Input) (fuel : Nat) (consume : Bool) : Option (List PAlt) :=
   let (ch, closed) := chart g inp fuel
   if !closed then none else
-  let roots := (parseEnds g ch).eraseDups.filter (fun j => !consume || inp.skip j == inp.len)
-  let useful := usefulIter g inp ch (fuel * fuel * 16 + 1000) [] (roots.map (fun j => (g.start, 0, j)))
+  let roots := ((parseEnds g ch).eraseDups.filter (fun j => !consume || inp.skip j == inp.len)).map
+    (fun j => (g.start, 0, j))
+  let useful := usefulIter g inp ch (fuel * fuel * 16 + 1000) [] roots
+  if !usefulClosed g inp ch useful roots then none else
   some (useful.flatMap (altsOf g inp ch))
 
 end Pg
